@@ -385,6 +385,18 @@ func (req *SrvReq) Respond() {
 		return
 	}
 
+	if rop, ok := (req.Conn.Srv.ops).(SrvReqProcessOps); ok {
+		rop.SrvReqRespond(req)
+	} else {
+		req.PostProcess()
+	}
+
+	/* queue the reply before the request is unregistered, so that a flush
+	 * that no longer finds the request cannot overtake its reply */
+	if (status & reqFlush) == 0 {
+		conn.reqout <- req
+	}
+
 	/* remove the request and all requests flushing it */
 	conn.Lock()
 	nextreq := req.prev
@@ -410,16 +422,6 @@ func (req *SrvReq) Respond() {
 		flushreqs = req.flushreq
 	}
 	conn.Unlock()
-
-	if rop, ok := (req.Conn.Srv.ops).(SrvReqProcessOps); ok {
-		rop.SrvReqRespond(req)
-	} else {
-		req.PostProcess()
-	}
-
-	if (status & reqFlush) == 0 {
-		conn.reqout <- req
-	}
 
 	// process the next request with the same tag (if available)
 	if nextreq != nil {
